@@ -875,6 +875,8 @@ def _tensorclass(cls: T, *, frozen, shadow: bool) -> T:
         cls.__getitems__ = _getitem
     if "__setitem__" not in cls.__dict__:
         cls.__setitem__ = _setitem
+    if "__delitem__" not in cls.__dict__:
+        cls.__delitem__ = _delitem
     if not _is_non_tensor:
         cls.__repr__ = _repr
     if "__len__" not in cls.__dict__:
@@ -1867,6 +1869,11 @@ def _setitem(self, item: NestedKey, value: Any) -> None:  # noqa: D417
     else:
         # int, float etc.
         self._tensordict[item] = value
+
+
+def _delitem(self, key: NestedKey) -> None:
+    """Deletes an entry: ``del tc[key]`` is ``tc.del_(key)``, as for a tensordict."""
+    self.del_(key)
 
 
 def _repr(self) -> str:
